@@ -6,7 +6,8 @@ Domain: two-version histories = (generated package model, edit script of 1-4 cat
 the ORIGINAL model).  Packages: `pk` with public / private modules and sub-packages, `__all__` in some modules
 (list / tuple / built with `+=` / declared EMPTY as `[]`, `()` or assembled from another module's empty `__all__`),
 re-exports (also chains) from private modules, wildcard re-exports (`from m import *` in modules that declare `__all__`),
-module aliases, classes with (private / imported) bases and nested classes, unresolvable (external module, dynamic
+module aliases, classes with (private / imported) bases (also two bases sharing a short name), nested classes,
+imports written inside class bodies, unresolvable (external module, dynamic
 name) and cyclic (name cycles, module-alias cycles) re-exports in public positions.
 Oracle: the public-frontier reference model of vp/gen/c11_model.py, computed from the generator's model with the
 documented is_public decision table — never from Griffe's output.
@@ -61,6 +62,11 @@ ASSUMPTIONS = [
     "both versions are loaded statically with the options griffe.check uses (resolve_aliases=True, resolve_external=None, allow_inspection=False)",
     "CLI clause: git 2.39 from PATH with GIT_CONFIG_GLOBAL/SYSTEM=/dev/null; check() is called in-process with cwd = repository",
     "names are unique per scope, member names never collide with sub-module names",
+    "an import written inside a class body is imported-but-not-exported there (docs: class-level objects are public unless private-named "
+    "or imported): private under both readings in its own class; seen through a subclass the code no longer knows it was imported, "
+    "so there it is treated as ambiguous (neither demanded nor forbidden)",
+    "a class may derive from two classes that share their short name but live in different modules (second one imported under an alias, "
+    "from pk.b import K as K_b); removing either is a removed base like any other (the property text names 'removing a base class')",
     "attribute values are source texts from a fixed pool (constants, operators, containers, calls, names, attribute chains, "
     "comprehension, lambda, subscript, conditional); a value change = two different pool texts, old and new drawn independently "
     "(constant<->expression both ways, expression->expression, constant->constant); all 992 ordered pairs were checked to be reported on the unchanged tree",
